@@ -226,6 +226,38 @@ def run(res, tier, br, model_ok=True, search=False):
         groups.append([("/nium/" + nm if rng.random() < 0.5 else nm, ds) for nm, ds in results[i:i + k]])
         i += k
     run_fmt(res, tier, model_ok, groups)
+    cli_formats(res, rng, [(n, s_) for n, s_ in files if len(s_) < 4000][:8])
+
+
+def cli_formats(res, rng, files):
+    """the real CLI, one process per format, several files named on the command line: both reports list the
+    same files in the order of the command line, with the same verdicts and diagnostics"""
+    import os, shutil, tempfile
+    from impl import run_cli
+    from props.C16 import parse_any
+    d = tempfile.mkdtemp(prefix="verif_c08_")
+    try:
+        names = []
+        for k, (name, src) in enumerate(files):
+            nm = f"n{k}_{name}"
+            open(os.path.join(d, nm), "w").write(src)
+            names.append(nm)
+        rng.shuffle(names)
+        got = {}
+        for o in (["--no-colors"], ["-f", "json"]):
+            out = run_cli(o + names, d)
+            res.count("cli-formats", 1)
+            if out.get("hang") or out["exit"] is None or "Unrecognized" in out["stdout"]:
+                return
+            got[o[-1]] = parse_any(out["stdout"], "json" if "json" in o else "humanized")
+        rp = {"kind": "cli-formats", "argv": names, "files": {n: s_ for n, (_, s_) in zip([f"n{k}_{nm}" for k, (nm, _) in enumerate(files)], files)}}
+        h, j = got.get("--no-colors"), got.get("json")
+        if h is None or j is None or h != j:
+            res.report("formats:disagree", f"CLI humanized {str(h)[:200]} vs json {str(j)[:200]}", rp)
+        elif [x[0] for x in h] != names:
+            res.report("formats:file-order", f"files listed as {[x[0] for x in h]}, command line {names}", rp)
+    finally:
+        shutil.rmtree(d, ignore_errors=True)
 
 
 def replay(rp):
@@ -243,6 +275,10 @@ def replay(rp):
         pos = [(d[3][0][0], d[3][0][1]) for d in out]
         if pos != sorted(pos):
             res.violations.append(("sort", "", {}))
+    elif rp.get("kind") == "cli-formats":
+        import random
+        files = [(n.split("_", 1)[1], s_) for n, s_ in rp["files"].items()]
+        cli_formats(res, random.Random(1), files)
     elif rp.get("kind") == "fmt":
         run_fmt(res, "quick", False, [[(p, ds) for p, ds in rp["files"]]])
     else:
